@@ -5,4 +5,4 @@ From ZV Require Import Expire.Consts Expire.Model.
 Extraction Language OCaml.
 Extraction "model.ml" Z.of_N N.of_nat Nat.add Z.to_N Z.of_nat Z.mul Z.add Z.sub Z.eqb Z.quot
   ns_per_sec list_initial_seq sec step read empty_store flagged compact local_tick
-  kv_raw coll_header ttl_of is_expired removable not_exist_or_expired due format_int lazy_expired.
+  kv_raw coll_header ttl_of is_expired removable not_exist_or_expired due format_int lazy_expired read_elem read_value read_exists read_mget.
